@@ -729,7 +729,7 @@ func c14Run(c *fw.Ctx) error {
 			return err
 		}
 	}
-	c.Res.Bound = "base64/uri: every byte string of length <= 2 (quick: one third of the pairs) and length 3 over a 24-byte core (thorough: every 3-byte string, 2^24); the decode operators over every pair and triple of a 6-string pool incl. the empty string in one call; xml also with two non-default attribute-prefix/content-name settings; properties: keys x values over all strings of length <= 2 over 13 characters (separators, comment signs, backslash, blanks, line feed, non-ASCII), 3 directions; csv/tsv: fields of length <= 2 over 10 characters in 4 table shapes, 3 separators, objects listing their keys in every order of 2, 3 and 4 columns; lua: strings of length <= 2 over 13 atoms, 12 hazardous keys, U(3), quoted and unquoted keys; xml: element trees with attributes/text/repeated children over hazardous text; toml: mini-grammar documents; to_json/from_json and to_yaml/from_yaml on U(3)"
+	c.Res.Bound = "base64/uri: every byte string of length <= 2 (quick: one third of the pairs) and length 3 over a 24-byte core (thorough: every 3-byte string, 2^24); the decode operators over every pair and triple of a 6-string pool incl. the empty string in one call; xml also with two non-default attribute-prefix/content-name settings; properties: keys x values over all strings of length <= 2 over 13 characters (separators, comment signs, backslash, blanks, line feed, non-ASCII), 3 directions; csv/tsv: fields of length <= 2 over 10 characters in 4 table shapes, 3 separators, objects listing their keys in every order of 2, 3 and 4 columns; lua: strings of length <= 2 over 13 atoms, 12 hazardous keys, U(3), quoted and unquoted keys; xml: element trees with attributes/text/repeated children over hazardous text, 16 element names (HTML's void names among them) x the decoder's 8 switch settings; toml: mini-grammar documents; to_json/from_json and to_yaml/from_yaml on U(3)"
 	return nil
 }
 
@@ -933,6 +933,31 @@ func c14Batch(c *fw.Ctx) error {
 			}
 		}
 	}
+	// XML decode: element names (among them the names HTML treats as void) x the decoder's switches; a well-formed document
+	// means the same under each of them
+	for _, name := range []string{"c", "link", "meta", "img", "br", "hr", "input", "param", "col", "base", "area", "LINK", "p", "td", "li", "option"} {
+		for _, raw := range []bool{true, false} {
+			for _, strict := range []bool{false, true} {
+				for _, keepNS := range []bool{true, false} {
+					id++
+					xmlText := "<r><" + name + ">t</" + name + "><d k=\"v\">inner</d><" + name + "><e>u</e></" + name + "></r>"
+					dp := yqlib.NewDefaultXmlPreferences()
+					dp.UseRawToken, dp.StrictMode, dp.KeepNamespace = raw, strict, keepNS
+					n, derr, dpan := c14Decode(yqlib.NewXMLDecoder(dp), xmlText)
+					c.Eval(1)
+					c.Validated(1)
+					c.Nontrivial(fmt.Sprintf("xml-decode-switches%s%v%v%v", name, raw, strict, keepNS))
+					want := fmt.Sprintf(`{"r":{%q:["t",{"e":"u"}],"d":{"+@k":"v","+content":"inner"}}}`, name)
+					sw := fmt.Sprintf("raw-token=%v/strict=%v/keep-namespace=%v", raw, strict, keepNS)
+					if dpan != nil || derr != nil {
+						c.Violation("xml/decode/error/element-name/"+sw, int64(id), c14Case{Format: "xml", Dir: "decode", Data: xmlText, Prefs: sw}, fmt.Sprintf("well-formed XML %q rejected with %s: %v %v", xmlText, sw, derr, dpan))
+					} else if got := c14LuaNormal(textV(n)).String(); got != c14LuaNormal(textV(vNode(fromJSONText(want)))).String() {
+						c.Violation("xml/decode/value/element-name/"+sw, int64(id), c14Case{Format: "xml", Dir: "decode", Data: xmlText, Prefs: sw}, fmt.Sprintf("XML %q with %s decodes to %s, expected %s", xmlText, sw, got, want))
+					}
+				}
+			}
+		}
+	}
 	// TOML decode: documents from a mini-grammar
 	for _, doc := range c14TomlDocs() {
 		id++
@@ -1010,7 +1035,13 @@ func c14Replay(raw json.RawMessage) (bool, string, error) {
 			want = cs.Extra[0]
 		}
 		if cs.Format == "xml" && cs.Dir == "decode" {
-			n, derr, dpan := c14Decode(yqlib.NewXMLDecoder(yqlib.NewDefaultXmlPreferences()), cs.Data)
+			rp := yqlib.NewDefaultXmlPreferences()
+			if strings.HasPrefix(cs.Prefs, "raw-token=") {
+				rp.UseRawToken = strings.Contains(cs.Prefs, "raw-token=true")
+				rp.StrictMode = strings.Contains(cs.Prefs, "strict=true")
+				rp.KeepNamespace = strings.Contains(cs.Prefs, "keep-namespace=true")
+			}
+			n, derr, dpan := c14Decode(yqlib.NewXMLDecoder(rp), cs.Data)
 			if derr != nil || dpan != nil {
 				return true, fmt.Sprintf("%v %v", derr, dpan), nil
 			}
